@@ -102,6 +102,139 @@ pub proof fn dw_le_blen(s: Seq<char>)
     }
 }
 
+
+// ======================= C10, property level =======================
+// A text is a sequence of chunks: a plain (non-ESC) character, or ESC followed by a well-formed
+// CSI body "[ params final" or OSC body "] body (BEL | ESC \)", exactly as the property describes them.
+pub enum Chunk { Plain(char), Seq(Seq<char>) }
+
+pub open spec fn is_csi_body(t: Seq<char>) -> bool {
+    t.len() >= 2 && t[0] == '[' && is_final(t.last())
+    && forall|i: int| 1 <= i < t.len() - 1 ==> !is_final(#[trigger] t[i])
+}
+pub open spec fn is_osc_body(t: Seq<char>) -> bool {
+    t.len() >= 2 && t[0] == ']'
+    && ( (t.last() == '\x07' && forall|i: int| 1 <= i < t.len() - 1 ==> (#[trigger] t[i]) != '\x07' && t[i] != '\x1b')
+      || (t.len() >= 3 && t.last() == '\\' && t[t.len() - 2] == '\x1b'
+          && forall|i: int| 1 <= i < t.len() - 2 ==> (#[trigger] t[i]) != '\x07' && t[i] != '\x1b') )
+}
+pub open spec fn chunk_ok(c: Chunk) -> bool {
+    match c { Chunk::Plain(ch) => ch != '\x1b', Chunk::Seq(t) => is_csi_body(t) || is_osc_body(t) }
+}
+pub open spec fn chunk_text(c: Chunk) -> Seq<char> {
+    match c { Chunk::Plain(ch) => seq![ch], Chunk::Seq(t) => seq!['\x1b'] + t }
+}
+pub open spec fn text_of(cs: Seq<Chunk>) -> Seq<char>
+    decreases cs.len()
+{ if cs.len() == 0 { Seq::empty() } else { chunk_text(cs[0]) + text_of(cs.skip(1)) } }
+/// the text with the escape sequences removed
+pub open spec fn stripped(cs: Seq<Chunk>) -> Seq<char>
+    decreases cs.len()
+{ if cs.len() == 0 { Seq::empty() } else { (match cs[0] { Chunk::Plain(ch) => seq![ch], Chunk::Seq(_) => Seq::empty() }) + stripped(cs.skip(1)) } }
+pub open spec fn width_sum(s: Seq<char>) -> nat
+    decreases s.len()
+{ if s.len() == 0 { 0 } else { chw(s[0]) + width_sum(s.skip(1)) } }
+
+pub proof fn csi_len_of_body(t: Seq<char>, k: int, rest: Seq<char>)
+    requires 1 <= k <= t.len() - 1, is_csi_body(t)
+    ensures csi_len(t.skip(k) + rest) == t.len() - k
+    decreases t.len() - k
+{
+    let u = t.skip(k) + rest;
+    assert(u[0] == t[k]);
+    if k == t.len() - 1 { assert(is_final(u[0])); }
+    else {
+        assert(!is_final(t[k]));
+        assert(u.skip(1) =~= t.skip(k + 1) + rest);
+        csi_len_of_body(t, k + 1, rest);
+    }
+}
+pub proof fn osc_len_of_body(t: Seq<char>, k: int, rest: Seq<char>, last: char)
+    requires 1 <= k <= t.len() - 1, is_osc_body(t), last == t[k - 1],
+    ensures osc_len(t.skip(k) + rest, last) == t.len() - k
+    decreases t.len() - k
+{
+    let u = t.skip(k) + rest;
+    assert(u[0] == t[k]);
+    if k == t.len() - 1 {
+        // the terminator's last char: BEL, or '\\' preceded by ESC
+    } else {
+        assert(u.skip(1) =~= t.skip(k + 1) + rest);
+        osc_len_of_body(t, k + 1, rest, t[k]);
+        // t[k] is not a terminator here
+        if t.last() == '\x07' && (forall|i: int| 1 <= i < t.len() - 1 ==> (#[trigger] t[i]) != '\x07' && t[i] != '\x1b') {
+            assert(t[k] != '\x07'); assert(t[k] != '\x1b');
+            if k >= 2 { assert(t[k - 1] != '\x1b'); }
+        } else {
+            if k < t.len() - 2 { assert(t[k] != '\x07'); if k >= 2 { assert(t[k - 1] != '\x1b'); } }
+            else { assert(t[k] == '\x1b'); if k >= 2 { assert(t[k-1] != '\x1b'); } }
+        }
+    }
+}
+pub proof fn skip_len_of_seq(t: Seq<char>, rest: Seq<char>)
+    requires is_csi_body(t) || is_osc_body(t)
+    ensures skip_len(t + rest) == t.len()
+{
+    let u = t + rest;
+    assert(u[0] == t[0]);
+    assert(u.skip(1) =~= t.skip(1) + rest);
+    if is_csi_body(t) { csi_len_of_body(t, 1, rest); } else { osc_len_of_body(t, 1, rest, ']'); }
+}
+pub proof fn width_sum_concat(a: Seq<char>, b: Seq<char>)
+    ensures width_sum(a + b) == width_sum(a) + width_sum(b)
+    decreases a.len()
+{
+    if a.len() == 0 { assert(a + b =~= b); }
+    else { assert((a + b).skip(1) =~= a.skip(1) + b); width_sum_concat(a.skip(1), b); }
+}
+/// C10: for a text all of whose ESC characters begin well-formed sequences, display_width is the sum of
+/// the character widths of what remains after removing those sequences
+pub proof fn dw_is_width_sum_of_stripped(cs: Seq<Chunk>)
+    requires forall|i: int| 0 <= i < cs.len() ==> chunk_ok(#[trigger] cs[i])
+    ensures dw(text_of(cs)) == width_sum(stripped(cs))
+    decreases cs.len()
+{
+    if cs.len() > 0 {
+        let rest = text_of(cs.skip(1));
+        assert(forall|i: int| 0 <= i < cs.skip(1).len() ==> chunk_ok(#[trigger] cs.skip(1)[i])) by {
+            assert forall|i: int| 0 <= i < cs.skip(1).len() implies chunk_ok(#[trigger] cs.skip(1)[i]) by { assert(cs.skip(1)[i] == cs[i + 1]); }
+        }
+        dw_is_width_sum_of_stripped(cs.skip(1));
+        assert(chunk_ok(cs[0]));
+        match cs[0] {
+            Chunk::Plain(ch) => {
+                let s = text_of(cs);
+                assert(s[0] == ch);
+                assert(s.skip(1) =~= rest);
+                assert(stripped(cs).skip(1) =~= stripped(cs.skip(1)));
+            },
+            Chunk::Seq(t) => {
+                let s = text_of(cs);
+                assert(s[0] == '\x1b');
+                let r = s.skip(1);
+                assert(r =~= t + rest);
+                skip_len_of_seq(t, rest);
+                assert(r.skip(t.len() as int) =~= rest);
+                assert(stripped(cs) =~= stripped(cs.skip(1)));
+            },
+        }
+    }
+}
+/// additivity over concatenation when the first part is ESC-free
+pub proof fn dw_additive_esc_free(a: Seq<char>, b: Seq<char>)
+    requires forall|i: int| 0 <= i < a.len() ==> (#[trigger] a[i]) != '\x1b'
+    ensures dw(a + b) == dw(a) + dw(b)
+    decreases a.len()
+{
+    if a.len() == 0 { assert(a + b =~= b); }
+    else {
+        assert((a + b)[0] == a[0]);
+        assert((a + b).skip(1) =~= a.skip(1) + b);
+        assert forall|i: int| 0 <= i < a.skip(1).len() implies (#[trigger] a.skip(1)[i]) != '\x1b' by { assert(a.skip(1)[i] == a[i + 1]); }
+        dw_additive_esc_free(a.skip(1), b);
+    }
+}
+
 pub proof fn skip_len_bounds(s: Seq<char>)
     ensures 0 <= skip_len(s) <= s.len()
 {
